@@ -127,6 +127,19 @@ def epOp (m : EpMachine) (toks : List String) : EpMachine × String :=
       let (m, rep) := m.report
       (m, "ok" ++ rep)
     | _, _ => (m, "bad-op")
+  | "recli" :: i :: rest =>
+    -- a new client behind the relay socket of an existing peer: the server sees the same address again
+    match i.toNat?, pEpCfg rest with
+    | some i, some (cfg, []) =>
+      match m.peer i with
+      | none => (m, "bad-op")
+      | some p =>
+        let (c, sent) := (Client.connect cfg m.now m.rng : Client HS × List (List Nat))
+        let m := { m with rng := c.rng }
+        let m := m.setPeer i { p with client := some c, c2s := p.c2s ++ sent.toArray }
+        let (m, rep) := m.report
+        (m, "ok" ++ rep)
+    | _, _ => (m, "bad-op")
   | [op] =>
     if op == "sstep" || op == "sflush" then
       match m.server with
